@@ -163,6 +163,7 @@ func drawScheds(tp *Tape, allowErr bool) []Sched {
 		if allowErr {
 			s.Err = tp.Chance(25, "schederr")
 		}
+		s.Close = tp.Chance(20, "schedclose")
 		out = append(out, s)
 	}
 	return out
